@@ -27,6 +27,14 @@ def run(tier, seed):
     chk = vlib.Check(PROP, tier, seed)
     gate = vlib.coq_gate(PROP, extra_targets=dc.EXTRA_TARGETS)
     vlib.gate_or_violation(chk, gate)
+    # the run-level composition theorems (Properties/Run.v: C02_complete_if_not_cancelled, C11_all_units, ...)
+    # are built and audited (hygiene, Print Assumptions) with this property
+    gate_run = vlib.coq_gate("Run")
+    vlib.gate_or_violation(chk, gate_run)
+    for k in ("obligations", "discharged"):
+        gate[k] += gate_run[k]
+    gate["theorems"] = gate["theorems"] + gate_run["theorems"]
+    gate["axioms"].update(gate_run["axioms"])
     binary, err = vlib.build_harness()
     if binary is None:
         chk.violation("broken-obligation", "harness-build", dict(error=err), no_input=True)
@@ -139,6 +147,10 @@ def run(tier, seed):
     try:
         import e2e_general
         e2e_general.stage(chk, PROP, tier, seed)
+        # corr:dispatcher-trace (hook H1b): the history the real dispatcher received on real schedules is
+        # checked against wf_history and replayed through fold dstep (lib/trace_tie.py)
+        import trace_tie
+        trace_tie.stage_trace(chk, tier, seed)
     except RuntimeError as ex:
         chk.violation("broken-obligation", "e2e-build", dict(error=str(ex)[-3000:]), no_input=True)
     return chk.finish(
